@@ -228,11 +228,18 @@ func (e *Engine) buildReplay(r *FnResult, o *Obl, smt string) *ReplayFile {
 	for _, it := range c.inputTerms {
 		bounds = append(bounds, smallBounds(c, it.term, it.typ)...)
 	}
+	sliceOnly := append([]string{}, bounds...)
 	bounds = append(bounds, mapDomainBounds(c, smt)...)
 	ib := ifaceBounds(c)
-	ms, res, err := openModel(smt, append(append([]string{}, bounds...), ib...), e.timeoutS)
+	ms, res, err := openModel(smt, append(append([]string{}, bounds...), ib...), 8)
 	if ms == nil {
-		ms, res, err = openModel(smt, ib, e.timeoutS)
+		ms, res, err = openModel(smt, append(append([]string{}, sliceOnly...), ib...), 8)
+	}
+	if ms == nil {
+		ms, res, err = openModel(smt, sliceOnly, 8)
+	}
+	if ms == nil {
+		ms, res, err = openModel(smt, ib, 8)
 	}
 	if ms == nil {
 		ms, res, err = openModel(smt, nil, e.timeoutS)
